@@ -46,7 +46,7 @@ const slack = time.Millisecond
 
 func TestC15Keepalive(t *testing.T) {
 	e := vrun.LoadEnv()
-	meta := vrun.Meta{Property: "C15", Workload: "TestC15Keepalive", Total: e.Pick(200, 5000),
+	meta := vrun.Meta{Property: "C15", Workload: "TestC15Keepalive", Total: e.Pick(200, 50000),
 		Rule: "virtual time (testing/synctest): (interval, timeout) drawn from {50ms,200ms,1s,1.5s,10s,30s}^2; the broker answers the first k in {0,1,2,5,20,all} pings in time (pong delay 0, timeout/2 or timeout-1ms) and then falls silent or answers late (timeout+1ms, 3*timeout); with or without concurrent upstream traffic; 0/3/10 broker-originated pings interleaved. Oracle on the virtual clock: ping cadence (next ping no later than one interval + 1ms after the previous one was sent), disconnect notification AND a new dial no later than timeout + 1 ms after the first ping that is not answered in time reached the broker; no disconnect and no redial over 40 intervals while every pong is in time; every broker ping answered by a pong with the same request id; announced interval/timeout = configured values truncated to whole seconds. non-trivial = at least 2 client pings observed; distinct = scenario tuple",
 		Assumptions: []string{"scheduling slack is 1 ms of virtual time (inside a bubble time only advances when every goroutine is blocked)",
 			"'silence' starts with the first ping that does not get its pong within the timeout; the bound is measured from that ping's arrival at the broker"}}
